@@ -54,6 +54,11 @@ def gen_tree(rng, n_secs, depth_max):
               "repository": rng.choice(REPOS),
               "definition": rng.choice([None, None, "definition of a section"]),
               "reference": rng.choice([None, None, None, "ref-1"])}
+        if rng.random() < 0.1:
+            # a Section that declares how many children it should have: cardinalities are
+            # reported, never enforced - resolving a link copies every child all the same
+            nd["sec_card"] = rng.choice([None, [None, rng.choice([0, 1, 2])]])
+            nd["prop_card"] = rng.choice([None, [None, rng.choice([0, 1, 2])], [0, 1]])
         for k in range(rng.choice([0, 0, 1, 2])):
             # now and then a Property is named like Sections are: a Section and a Property of one
             # name under one parent are different children
@@ -239,6 +244,10 @@ def build(odml, roots, parent):
             odml.Property(name=p["name"], values=p["values"], unit=p.get("unit"), parent=sec,
                           dtype=p.get("dtype"))
         build(odml, nd["secs"], sec)
+        if nd.get("sec_card"):
+            sec.sec_cardinality = tuple(nd["sec_card"])
+        if nd.get("prop_card"):
+            sec.prop_cardinality = tuple(nd["prop_card"])
 
 
 def find(container, path):
@@ -374,7 +383,9 @@ def run_case(case):
             idx = [i for i, s in enumerate(par.sections) if s is linker][0]
             new = odml.Section(name=linker.name, type=linker.type, oid=linker.id,
                                repository=linker.repository, definition=linker.definition,
-                               reference=linker.reference, **ref)
+                               reference=linker.reference,
+                               sec_cardinality=linker.sec_cardinality,
+                               prop_cardinality=linker.prop_cardinality, **ref)
             for ch in list(linker.sections) + list(linker.properties):
                 new.append(ch)
             par.sections[idx] = new
